@@ -164,6 +164,37 @@ class Model:
         return S, LX, LZ, D
 
 
+def check_apply_deformation(model, D, S, LX, sim):
+    from panqec.bpauli import apply_deformation
+    key = ('apply', canon([d['X'] for d in D]))
+    if key in model._d_cache:
+        return None
+    n = model.n
+    mask = [d['X'] == 'Z' for d in D]
+    H0 = model.fresh.stabilizer_matrix.toarray()
+    forms = {
+        'list of bool': list(mask),
+        'bool ndarray': np.array(mask, dtype=bool),
+        'int64 0/1 ndarray': np.array(mask, dtype=np.int64),
+        'uint8 0/1 ndarray': np.array(mask, dtype=np.uint8),
+    }
+    for fname, form in forms.items():
+        got = matrix_rows(apply_deformation(form, H0), n)
+        if got != S:
+            return {'class': 'apply_deformation_is_not_the_relabelling',
+                    'site_set_given_as': fname, 'operand': 'matrix'}
+        lx0 = model.fresh.logicals_x
+        lx0 = lx0.toarray() if hasattr(lx0, 'toarray') else np.asarray(lx0)
+        row = np.atleast_2d(lx0)[0]
+        got1 = matrix_rows(apply_deformation(form, np.asarray(row)), n)
+        if got1 != [LX[0]]:
+            return {'class': 'apply_deformation_is_not_the_relabelling',
+                    'site_set_given_as': fname, 'operand': 'vector'}
+    sim.probe('apply_deformation_compared')
+    model._d_cache[key] = True
+    return None
+
+
 def matrix_rows(M, n):
     """Rows of a (sparse or dense) BSF matrix as (x, z) int pairs."""
     if hasattr(M, 'toarray'):
@@ -385,6 +416,14 @@ def compare(model, obj, cur, noises, sim):
                     'got': got_d[key] if not isinstance(got_d[key], list)
                     else 'list', 'fresh': want_d[key]
                     if not isinstance(want_d[key], list) else 'list'}
+    # the matrix-level helper of the same relabelling: for a Hadamard-type
+    # deformation, bpauli.apply_deformation(site set, undeformed H) must be
+    # the deformed H - whatever legal form the site set is given in
+    if all(d in ({'X': 'X', 'Y': 'Y', 'Z': 'Z'},
+                 {'X': 'Z', 'Y': 'Y', 'Z': 'X'}) for d in D) and name:
+        bad = check_apply_deformation(model, D, S, LX, sim)
+        if bad:
+            return bad
     # structure preserved: rank and commutation relations
     rc = refmodel.RefCode.__new__(refmodel.RefCode)
     rc.n, rc.stabs, rc.lx, rc.lz, rc._basis = n, S, LX, LZ, None
